@@ -83,12 +83,36 @@ def _secondary_set_is_the_callers(ctx: Ctx, build):
     ctx.ob("C07-O4", "R27 WRITE-OWNERSHIP", build, "the set of optional columns is the caller's `secondary` and nothing else", ok, (f"`{ast.unparse(muts[0])[:60]}`: a primary column that is demoted is no longer required to be covered - selections that miss it (or hit it twice) are returned as exact covers" if muts else f"{len(defs)} definition(s): {[ast.unparse(d.value)[:50] for d in defs]}"), node=muts[0] if muts else build.node)
 
 
+def _sizes_are_exact_and_cover_is_total(ctx: Ctx):
+    """`size` is the number of nodes under a header - of every header, secondary ones included: it is bumped wherever a
+    node is hung into a column, with no condition of its own.  And `_cover` / `_uncover` walk the whole column: neither
+    has a way out before the walk.  (Each half of 'secondary columns need no size' + 'an empty column needs no cover'
+    is harmless alone; together a secondary column is never hidden from the rows that share it.)"""
+    build = ctx.func("dlx", "_build_links")
+    cfg = cfg_of(build.node)
+    gv = GuardView(cfg)
+    hangs = [n for n in own_nodes(build.node) if isinstance(n, ast.Assign) and ast.unparse(n.targets[0]) == "col.up" and ast.unparse(n.value) == "node"]
+    bumps = [n for n in own_nodes(build.node) if isinstance(n, ast.AugAssign) and ast.unparse(n.target) == "col.size"]
+    ctx.floor("node insertions in _build_links", len(hangs), 1)
+    ok = len(hangs) == len(bumps) == 1
+    if ok:
+        a_h = {a for a in gv.guard_atoms(cfg.node_of(hangs[0]), stable_only=False)}
+        a_b = {a for a in gv.guard_atoms(cfg.node_of(bumps[0]), stable_only=False)}
+        ok = a_h == a_b and isinstance(bumps[0].op, ast.Add) and ast.unparse(bumps[0].value) == "1"
+    ctx.ob("C07-O1", "R16 PAIRED-EFFECTS", build, "hanging a node into a column and counting it in the header's size happen under the same conditions", ok, (f"size bumped under {sorted(a_b - a_h)[:3]} only" if len(hangs) == len(bumps) == 1 and not ok else "") + ": a header whose size is not the number of its nodes misleads every reader of it (the MRV scan, an emptiness test)", node=bumps[0] if bumps else build.node)
+    for name in ("_cover", "_uncover"):
+        g = ctx.func("dlx", name)
+        exits = [n for n in own_nodes(g.node) if isinstance(n, (ast.Return, ast.Raise, ast.Break))]
+        ctx.ob("C07-O1", "R12 NO-CARDINALITY-CUTOFF", g, f"{name} has no way out before it has walked the column", not exits, f"`{ast.unparse(exits[0])}` at line {exits[0].lineno}: a column that is unlinked from the header ring without hiding its rows leaves them selectable - the column can be used twice" if exits else "", node=exits[0] if exits else g.node)
+
+
 def run(ctx: Ctx):
     cover = ctx.func("dlx", "_cover")
     uncover = ctx.func("dlx", "_uncover")
     api = ctx.func("dlx", "solve_exact_cover")
     ctx.step(_links_change_only_in_search, api)
     ctx.step(_secondary_set_is_the_callers, ctx.func("dlx", "_build_links"))
+    ctx.step(_sizes_are_exact_and_cover_is_total)
     # ---- O2 (shape-independent part, decided before any search anchor is needed): wherever a closure of
     # solve_exact_cover covers a sequence of columns in a loop and uncovers it in another, the second loop runs the
     # sequence backwards - a ring walked right is undone walking left, a list walked forwards is undone reversed
@@ -532,7 +556,27 @@ def _v_duplicate_columns_demoted(tree):
     g.body[k[0] + 1 : k[0] + 1] = M.stmts("seen_patterns = set()\nfor idx, name in enumerate(col_names):\n    pattern = tuple(bool(row[idx]) for row in matrix)\n    if pattern in seen_patterns:\n        secondary_set.add(name)\n    else:\n        seen_patterns.add(pattern)")
 
 
+def _v_result_post_init(tree):
+    cls = [n for n in tree.body if isinstance(n, ast.ClassDef) and n.name == "Result"]
+    if not cls:
+        raise M.Skip("Result not found")
+    cls[0].body.extend(M.stmts("def __post_init__(self):\n    if self.status is Status.OPTIMAL and self.iterations > 0 and isinstance(self.solution, (list, tuple)) and not self.solution:\n        object.__setattr__(self, 'status', Status.INFEASIBLE)"))
+
+
+def _v_secondary_sizes_not_counted(tree):
+    g = M.find_func(tree, "_build_links")
+    M.replace_stmt(g, lambda s: M.src_is(s, "col.size += 1"), M.stmts("if col.name not in secondary_set:\n    col.size += 1"))
+
+
+def _v_cover_skips_empty_column(tree):
+    g = M.find_func(tree, "_cover")
+    M.insert(g, "node = col.down", "if col.size < 1:\n    return")
+
+
 VARIANTS = [
+    M.Variant("Result.__post_init__ relabels an OPTIMAL answer with an empty solution as INFEASIBLE (seed C07-U)", "solvor/types.py", _v_result_post_init, "C07-G7"),
+    M.Variant("secondary columns are not counted in their header's size (half of seed C07-V)", DLX, _v_secondary_sizes_not_counted, "C07-O1"),
+    M.Variant("_cover returns early for a header of size 0 (other half of seed C07-V)", DLX, _v_cover_skips_empty_column, "C07-O1"),
     M.Variant("columns that repeat an earlier column's pattern are made optional (seed C07-Q)", DLX, _v_duplicate_columns_demoted, "C07-O4"),
     M.Variant("presolve loop covers forced rows while walking the header ring (seed C07-O)", DLX, _v_presolve_forced_rows, "C07-O2"),
     M.Variant("the trivial find_all answer is one module-level Result shared by all calls (seed C07-N)", DLX, _v_shared_trivial_result, "C07-G3"),
